@@ -30,7 +30,9 @@ ASSUMPTIONS = [
     "reporters skip rung levels, which the stopping type tolerates with a warning)",
     "bracket assignment is the scheduler's own random draw; it is observed from the arguments of the public terminator.on_task_add",
     "a metric within 16 eps (relative) of the quantile may go either way (counted as roundoff_band, not judged)",
-    "rush_stopping with threshold candidates: only 'continues => passes the quantile rule' is claimed",
+    "rush_stopping with threshold candidates: the reference follows the RUSHDecider / RUSHScheduler docstrings (a candidate "
+    "that continues under the quantile rule sets the rung's threshold, other trials must also be no worse than it); decisions "
+    "at a rung whose threshold depends on a round-off tie are not judged",
 ]
 CASE_TIMEOUT = 60
 
@@ -197,14 +199,20 @@ class Monitor:
             else:
                 o.count("decided:rung_n>=2")
                 o.count(f"outcome:{cell}:{decision}")
+            if rush and info.get("rush_unjudged"):
+                o.count("rush_threshold_depends_on_roundoff_unjudged")
+                return
+            if rush and n >= 2:
+                o.count("decided:rush_threshold_rule")
+                if info.get("rush_stop"):
+                    o.count("decided:rush_stop_by_threshold_of_a_continuing_candidate")
             if decision != exp:
-                if rush and exp == "CONTINUE" and decision == "STOP":
-                    o.count("rush_stricter_stop")
-                    return
                 mech = (
                     "first_entries_not_continued" if n < 2 else
                     f"quantile_rule:{p['mode']}:expected_{exp}_got_{decision}"
                 )
+                if rush and n >= 2 and (info.get("rush_stop") or (exp == "CONTINUE" and isinstance(info.get("rush"), dict))):
+                    mech = f"rush_threshold_rule:{p['mode']}:expected_{exp}_got_{decision}"
                 o.violate("quantile_rule", mech, dict(info, level=level, bracket=b, trial=tid,
                                                       values=[e["value"] for e in self.ref.sys_of(b)[level]][:40]))
         else:
